@@ -77,6 +77,19 @@ pub const CARRIERS: &[Carrier] = &[
     Carrier { name: "into_bump_slice", make: "let c = bumpalo::vec![in &b; 1u32, 2].into_bump_slice();", use_: "consume(c[0]);", needs_default: true, exclusive: false, expr: Some("bumpalo::vec![in &b; 1u32, 2].into_bump_slice()") },
     Carrier { name: "into_bump_slice_mut", make: "let c = bumpalo::vec![in &b; 1u32, 2].into_bump_slice_mut();", use_: "c[0] += 1;", needs_default: true, exclusive: false, expr: Some("bumpalo::vec![in &b; 1u32, 2].into_bump_slice_mut()") },
     Carrier { name: "into_boxed_slice", make: "let mut c = bumpalo::vec![in &b; 1u32, 2].into_boxed_slice();", use_: "c[0] += 1;", needs_default: true, exclusive: false, expr: Some("bumpalo::vec![in &b; 1u32, 2].into_boxed_slice()") },
+    // carriers obtained through conversions: the arena lifetime must survive every From / Into / TryFrom / split / clone
+    Carrier { name: "Box<[T]> from Box<[T; N]> via into()", make: "let mut c: BBox<[u8]> = BBox::new_in([1u8, 2, 3, 4], &b).into();", use_: "c[0] += 1;", needs_default: true, exclusive: false, expr: Some("BBox::<[u8]>::from(BBox::new_in([1u8, 2, 3, 4], &b))") },
+    Carrier { name: "Box<[T; N]> from Box<[T]> via try_into()", make: "let mut c: BBox<[u8; 3]> = BBox::from_iter_in(0..3u8, &b).try_into().ok().unwrap();", use_: "c[0] += 1;", needs_default: true, exclusive: false, expr: Some("BBox::<[u8; 3]>::try_from(BBox::<[u8]>::from_iter_in(0..3u8, &b)).ok().unwrap()") },
+    Carrier { name: "Box<[T]> from Vec via into()", make: "let mut c: BBox<[u32]> = bumpalo::vec![in &b; 1u32, 2].into();", use_: "c[0] += 1;", needs_default: true, exclusive: false, expr: Some("BBox::<[u32]>::from(bumpalo::vec![in &b; 1u32, 2])") },
+    Carrier { name: "Vec from String::into_bytes", make: "let mut c = BString::from_str_in(\"hi\", &b).into_bytes();", use_: "c.push(1);", needs_default: true, exclusive: false, expr: Some("BString::from_str_in(\"hi\", &b).into_bytes()") },
+    Carrier { name: "String from_utf8(Vec)", make: "let mut c = BString::from_utf8(bumpalo::vec![in &b; 104u8, 105]).unwrap();", use_: "c.push('x');", needs_default: true, exclusive: false, expr: Some("BString::from_utf8(bumpalo::vec![in &b; 104u8, 105]).unwrap()") },
+    Carrier { name: "from_utf8_lossy_in", make: "let mut c = BString::from_utf8_lossy_in(&[104, 255], &b);", use_: "c.push('x');", needs_default: true, exclusive: false, expr: Some("BString::from_utf8_lossy_in(&[104, 255], &b)") },
+    Carrier { name: "from_utf16_in", make: "let mut c = BString::from_utf16_in(&[104, 105], &b).unwrap();", use_: "c.push('x');", needs_default: true, exclusive: false, expr: Some("BString::from_utf16_in(&[104, 105], &b).unwrap()") },
+    Carrier { name: "Vec::split_off", make: "let mut v = bumpalo::vec![in &b; 1u32, 2, 3]; let mut c = v.split_off(1);", use_: "c.push(2);", needs_default: true, exclusive: false, expr: None },
+    Carrier { name: "Vec::clone", make: "let v = bumpalo::vec![in &b; 1u32, 2, 3]; let mut c = v.clone();", use_: "c.push(2);", needs_default: true, exclusive: false, expr: None },
+    Carrier { name: "String::split_off", make: "let mut s = BString::from_str_in(\"hey\", &b); let mut c = s.split_off(1);", use_: "c.push('x');", needs_default: true, exclusive: false, expr: None },
+    Carrier { name: "String::clone", make: "let s = BString::from_str_in(\"hey\", &b); let mut c = s.clone();", use_: "c.push('x');", needs_default: true, exclusive: false, expr: None },
+    Carrier { name: "Box::into_inner of a boxed arena reference", make: "let c: &mut u32 = BBox::into_inner(BBox::new_in(b.alloc(5u32), &b));", use_: "*c += 1;", needs_default: true, exclusive: false, expr: Some("BBox::into_inner(BBox::new_in(b.alloc(5u32), &b))") },
     Carrier { name: "into_bump_str", make: "let c = BString::from_str_in(\"hi\", &b).into_bump_str();", use_: "consume(c.len());", needs_default: true, exclusive: false, expr: Some("BString::from_str_in(\"hi\", &b).into_bump_str()") },
     Carrier { name: "vec::IntoIter", make: "let mut c = bumpalo::vec![in &b; 1u32, 2, 3].into_iter();", use_: "consume(c.next());", needs_default: true, exclusive: false, expr: Some("bumpalo::vec![in &b; 1u32, 2, 3].into_iter()") },
     Carrier { name: "vec::Drain", make: "let mut v = bumpalo::vec![in &b; 1u32, 2, 3]; let mut c = v.drain(..);", use_: "consume(c.next());", needs_default: true, exclusive: false, expr: None },
